@@ -42,7 +42,7 @@ def plan(tier: str, seed: int):
     return [{"name": "swap", "engine": "jit",
              "args": {"mode": "swap", "maxlen": 7}, "timeout": 3000}] + [
         {"name": f"s{i}", "engine": "jit",
-         "args": {"mode": "inst", "n": 7000}, "timeout": 3400}
+         "args": {"mode": "inst", "n": 40000}, "timeout": 3400}
         for i in range(15)]
 
 
